@@ -63,7 +63,7 @@ Theorem C19_nil_only_after_success : forall iv maxd cancel pick0 calls atts r te
 Proof. exact nil_only_after_success. Qed.
 Print Assumptions C19_nil_only_after_success.
 
-(** the code before the fix a99379d: after maxRetryDuration "giving up" returned nil although
+(** the code before the fix 9155753: after maxRetryDuration "giving up" returned nil although
     every attempt had failed *)
 Theorem C19_giving_up_returned_nil_orig_refuted : exists iv maxd calls atts r te,
   iv <> [] /\ all_positive iv = true /\
